@@ -822,4 +822,29 @@ Section RT.
   Proof.
     intros EJ Ok PC. unfold pickle_copy in PC. rewrite EJ in PC. eapply roundtrip_idfree; eauto.
   Qed.
+
+  (** a read returns data that encodes like the stored datum *)
+  Corollary get_data_faithful fuel h rec k stored j h' r :
+    get_data_direct h rec k = Some stored ->
+    encode_top qp fuel h stored = HOk j -> enc_ok fuel j = true ->
+    get_data qp qp_dec fuel h rec k = HOk (h', r) ->
+    encode_top qp fuel h' r = HOk j.
+  Proof.
+    intros ED EJ Ok G. unfold get_data in G. rewrite ED in G. eapply copy_faithful; eauto.
+  Qed.
+
+  (** with copy-on-interception what is recorded encodes like the result did at capture *)
+  Corollary copy_on_faithful fuel h rec k result j h1 r' h2 :
+    rec < length h ->
+    encode_top qp fuel h result = HOk j -> enc_ok fuel j = true ->
+    pickle_copy qp qp_dec fuel h result = HOk (h1, r') ->
+    record_value qp qp_dec true fuel h rec k result = HOk h2 ->
+    recorded_value h2 rec k = Some r' /\ encode_top qp fuel h2 r' = HOk j.
+  Proof.
+    intros Lr EJ Ok PC RV.
+    destruct (copy_on_interception qp qp_dec _ _ _ _ _ _ _ _ Lr PC RV) as (RVal & _ & _ & _ & _ & Same & _ & Fr).
+    split; [exact RVal|].
+    pose proof (copy_faithful _ _ _ _ _ _ EJ Ok PC) as E1. unfold encode_top in *.
+    rewrite <- (Fr h1); [exact E1|]. intros l Hl. apply Same, Hl.
+  Qed.
 End RT.
